@@ -552,14 +552,16 @@ func TestC11(t *testing.T) {
 		post(c, run, err)
 		// no goroutine left behind: scan all stacks for processor frames (bounded number of yields)
 		left := ""
-		for i := 0; i < 2000; i++ {
+		// a goroutine whose deferred WaitGroup.Done() released Shutdown may need a moment to finish
+		// returning: poll a bounded number of times (generous under load: up to ~2 s)
+		for i := 0; i < 400; i++ {
 			left = processorGoroutines()
 			if left == "" {
 				break
 			}
 			runtime.Gosched()
-			if i%100 == 99 {
-				time.Sleep(time.Millisecond)
+			if i >= 50 {
+				time.Sleep(5 * time.Millisecond)
 			}
 		}
 		c.Count("goroutine_scans_after_shutdown", 1)
